@@ -887,3 +887,16 @@ def _pkg_transform2(fn):
 
 S('PKG_S_conditional_expressions_as_statements', ALL + ['C05'], '*', pkg_fn=_pkg_transform2(ifexp_to_if))
 S('PKG_S_conditional_expressions_negated', ALL + ['C05'], '*', pkg_fn=_pkg_transform2(swap_ifexp))
+
+# ---- round 8: SGN0 memoised value routes, ESC table form, MIRROR delegation, CHOKE shapes
+V('SGN0_token_builder_memoised', ['C18'], 'bitstore_helpers.py', "def bitstore_from_token(name: str", "@functools.lru_cache(CACHE_SIZE)\ndef bitstore_from_token(name: str", ['SGN0'])
+V('SGN0_memoised_float_param', ['C18'], 'bitstore_helpers.py', "def float2bitstore(f: Union[str, float]", "@functools.lru_cache(CACHE_SIZE)\ndef float2bitstore(f: Union[str, float]", ['SGN0'])
+_COL_OLD = "        if use_colour:\n            cls.blue = '\\033[34m'\n            cls.purple = '\\033[35m'\n            cls.green = '\\033[32m'\n            cls.off = '\\033[0m'\n        else:\n            cls.blue = cls.purple = cls.green = cls.off = ''\n        return x"
+S('ESC_table_form', ['C19'], 'bitstring_options.py', _COL_OLD,
+  "        codes = {'blue': '\\033[34m', 'purple': '\\033[35m', 'green': '\\033[32m', 'off': '\\033[0m'}\n        if not use_colour:\n            codes = dict.fromkeys(codes, '')\n        for name, code in codes.items():\n            setattr(cls, name, code)\n        return x")
+V('ESC_table_form_off_kept', ['C19'], 'bitstring_options.py', _COL_OLD,
+  "        codes = {'blue': '\\033[34m', 'purple': '\\033[35m', 'green': '\\033[32m', 'off': '\\033[0m'}\n        if not use_colour:\n            codes = {**dict.fromkeys(codes, ''), 'off': '\\033[0m'}\n        for name, code in codes.items():\n            setattr(cls, name, code)\n        return x", ['ESC'])
+V('MIRROR_delegated_unmirrored', ['C12'], 'bitstore.py', "        return bool(self._bitarray.__getitem__(-index - 1))", "        return self.getindex_msb0(len(self) - index)", ['MIRROR'])
+S('MIRROR_delegated_mirrored', ['C12'], 'bitstore.py', "        return bool(self._bitarray.__getitem__(-index - 1))", "        return self.getindex_msb0(-index - 1)")
+V('CHOKE_in_form_no_raise', ['C15', 'C06'], 'dtypes.py', "                if length not in self.allowed_lengths:\n                    if self.allowed_lengths.only_one_value():",
+  "                if length in self.allowed_lengths:\n                    pass\n                elif False:\n                    if self.allowed_lengths.only_one_value():", ['CHOKE'])
